@@ -379,6 +379,23 @@ def memberF (m : Member) : FieldF :=
 def structC (ms : List Member) : List FieldC := ms.map memberC
 def structF (ms : List Member) : List FieldF := ms.map memberF
 
+
+/-! ## names: a generated name is a template over the user-settable format fields -/
+
+/-- one segment of a name template: a literal part or the value of a format field (`C_prefix`,
+    `C_memory_dtor_function`, `C_bufferify_suffix`, ...) -/
+inductive Seg
+  | lit (id : Nat)
+  | field (id : Nat)
+  deriving DecidableEq, Repr
+
+/-- the name Shroud writes: literal parts from `lits`, format fields from the library's format dictionary `env` -/
+def expandName (lits env : Nat → List Nat) (t : List Seg) : List Nat :=
+  t.flatMap (fun s => match s with | .lit i => lits i | .field i => env i)
+
+/-- decoding of the regenerated tables: n ≥ 1000 is field (n - 1000) -/
+def decSeg (n : Nat) : Seg := if n ≥ 1000 then .field (n - 1000) else .lit n
+
 /-! ## decoding of the Nat-encoded tables (Gen/Interop.lean) and of driver requests -/
 
 def decCBase (c n : Nat) : Option CBase :=
